@@ -247,6 +247,7 @@ pub fn orchestrate<P: Prop>(tier: Tier) -> i32 {
             None => violations.push((sig, path, "call did not return within 600 s in isolation (confirmed hang)".into())),
             Some(st) if st.code() == Some(0) => machinery.push(format!("case blamed for '{how}' passes in isolation: inconclusive ({})", path.display())),
             Some(st) if st.code() == Some(2) => machinery.push(format!("isolated replay hit machinery trouble ({})", path.display())),
+            Some(st) if format!("{st}").contains("signal: 9") => machinery.push(format!("isolated replay was killed by SIGKILL (most likely out of memory): inconclusive ({})", path.display())),
             Some(st) => violations.push((sig, path, format!("confirmed in isolation: {st}"))),
         }
     }
